@@ -5,7 +5,7 @@ SPEC = {
     "streams": [
         {"name": "pool", "cmd": "pool",
          "args": {"quick": ["-cases", "2000", "-exh-np", "2", "-exh-nb", "2", "-exh-len", "2"],
-                  "thorough": ["-cases", "40000", "-exh-np", "3", "-exh-nb", "3", "-exh-len", "2"]},
+                  "thorough": ["-cases", "20000", "-exh-np", "3", "-exh-nb", "3", "-exh-len", "2"]},
          "search_args": ["-cases", "30000", "-exh-np", "2", "-exh-nb", "2", "-exh-len", "2"]},
     ],
     "trusted_base": [
